@@ -32,6 +32,22 @@ CLAIMED = {
             "non-NaN state, physical correctness on every state whose magnitudes differ by more than one conversion "
             "error, identity with the amount comparison on every same-unit state. Exhaustive within those bounds.",
             TRUST_E1, "5.2"),
+    "C03": (E1, "bounded exhaustive breadth-first exploration of +, -, / on the real code against an exact-rational reference model",
+            "All ordered unit pairs of all types with a reference unit, both back-ends, operand amounts from the value, "
+            "special and boundary alphabets (including the operand that cancels the other one in a different unit), sums "
+            "fed back as operands to depth 2. Cross-unit results are judged against exact rational arithmetic with a "
+            "derived rounding bound, same-unit results must be bit-identical to the amount type's own operation.",
+            TRUST_E1, "5.3"),
+    "C08": (E1, "exhaustive enumeration of (type, unit, amount, scalar) over finite alphabets on the real code with a bit-exact differential oracle (the amount type's own operation)",
+            "Every unit of every quantity type of the universe x every amount of the value, special (all IEEE classes) and "
+            "range-edge alphabets x every scalar of the same alphabets; construction in three forms, accessors, k*q, q*k, "
+            "q/k. The oracle is bit-exact, so no tolerance is involved.",
+            TRUST_E1, "5.8"),
+    "C10": (E1, "exhaustive enumeration of operand pairs over finite alphabets on the real code; oracle: panic-or-bit-identical",
+            "Every ordered unit pair of every type without reference unit x every pair of alphabet amounts (equal amounts in "
+            "different units included): comparisons, and + - / under catch_unwind; the documented panic must occur exactly "
+            "when units differ.",
+            TRUST_E1, "5.10"),
 }
 
 PENDING_REASON = "check not built yet in this revision of /verif (see DESIGN.md section 5 for the planned exploration)"
